@@ -154,6 +154,20 @@ def run(ctx):
     # a size is computed from the context of the call, every time: no _sizeof / _actualsize remembers anything on the object (shared with C17.R1)
     from . import C17 as _C17
     _C17.stateless_methods(ctx, "C05.R1", ("_sizeof", "_actualsize"))
+    # the configurations _sizeof refuses are the ones _parse and _build refuse (a length of 0 that parses and builds must also size), shared with C01.R2;
+    # and the probe of the length-prefixed classes is the amount their _parse consumes (shared with C16.R6)
+    from ..core import Ctx as _CtxS
+    from . import C01 as _C01s, C16 as _C16s
+    for mod, rules in ((_C01s, ("C01.R2",)), (_C16s, ("C16.R6",))):
+        subS = _CtxS(mod.__name__.split(".")[-1], ctx.tier, ctx.root, model=ctx.model)
+        subS._summ = summariser(ctx)
+        subS._shared_into_c05 = True
+        mod.run(subS)
+        for e in subS.errors:
+            ctx.error("shared %s rules: %s" % (subS.prop, e))
+        for o in subS.obligations:
+            if o.rule in rules and ("_sizeof" in str(o.where) or "_actualsize" in str(o.where) or o.rule == "C16.R6"):
+                ctx.ob("C05.R1", o.where, o.ok, o.what, key=o.key, loc=o.loc, detail=o.detail)
     ctx.floor("C05.R1", 60 + 45)
 
     # ---------------------------------------------------------------- R3
